@@ -13,12 +13,24 @@ def gen_cases(ctx, n_go, n_py, n_bad):
         pairs = list(m.items())
         rng.shuffle(pairs)
         payload = hc.rand_bytes(rng, rng.randrange(0, 200), 0)
-        kind = ["write", "write_ctx", "write_resp", "read_stream", "read_frame", "add"][i % 6]
+        kind = ["write", "write_ctx", "write_resp", "read_stream", "read_frame", "add", "read_req"][i % 7]
         cap = rng.choice([0, 0, 1, 7, 64])
         if kind in ("write", "write_ctx", "write_resp"):
             if kind != "write":
                 pairs = [(k, v) for k, v in pairs if k not in (b"_opid", b"_cid", b"_timeout")]
             go.append({"kind": kind, "pairs": pairs, "req": {"op": kind, "pairs": hc.hexpairs(pairs)}})
+        elif kind == "read_req":
+            # a request header block as ANY peer may send it (with an op id; with or without _cid / _timeout), read into an
+            # FContext through FProtocol.ReadRequestHeader: the context holds exactly the headers sent (op id renewed)
+            pairs = [(k, v) for k, v in pairs if k not in (b"_opid", b"_cid", b"_timeout")]
+            pairs.append((b"_opid", str(rng.randrange(0, 1 << 40)).encode()))
+            if rng.random() < 0.5:
+                pairs.append((b"_cid", hc.rand_bytes(rng, rng.randrange(1, 12), 1)))
+            if rng.random() < 0.5:
+                pairs.append((b"_timeout", str(rng.randrange(0, 100000)).encode()))
+            rng.shuffle(pairs)
+            b = hc.ref_marshal(pairs) + payload
+            go.append({"kind": kind, "pairs": pairs, "payload": payload, "bytes": b, "req": {"op": kind, "bytes": b.hex()}})
         elif kind in ("read_stream", "read_frame"):
             b = hc.ref_marshal(pairs) + payload
             rq = {"op": kind, "bytes": b.hex(), "cap": cap}
@@ -91,6 +103,20 @@ def oracle(case, resp):
         return ("the header block an earlier marshalHeaders call returned (%s...) changed when this map was marshalled: results "
                 "of the writer are not independent values" % resp["earlier_changed"][:40])
     want = dict(case["pairs"])
+    if k == "read_req":
+        got = dict(hc.unhexpairs(resp.get("map")))
+        w2 = {kk: vv for kk, vv in want.items() if kk != b"_opid"}
+        g2 = {kk: vv for kk, vv in got.items() if kk != b"_opid"}
+        if g2 != w2:
+            extra = sorted(set(g2) - set(w2))
+            return ("the FContext read from a request holds other headers than were sent (not sent but present: %r; lost or changed: %r)"
+                    % (extra, sorted(kk for kk in w2 if g2.get(kk) != w2[kk])))
+        rh = dict(hc.unhexpairs(resp.get("order")))
+        if rh.get(b"_opid") != want[b"_opid"]:
+            return "the response headers of the received context do not carry the request's op id"
+        if bytes.fromhex(resp.get("rest", "")) != case["payload"]:
+            return "payload after the header block not left intact"
+        return None
     if k in ("write", "write_ctx", "write_resp", "py_write"):
         out = bytes.fromhex(resp["out"])
         if k in ("write_ctx", "write_resp"):
@@ -177,7 +203,11 @@ def run(ctx, br):
         if why:
             oracle_fail += 1
             ctx.violation("C04 oracle: " + why, replay_of(c, r), signature=None)
-    verdicts = vlib.run_judge(ctx.rundir, "JHeaders", "judge", [judge_case(c, r) for c, r in zip(cases, resps)])
+    judged = [i for i, c in enumerate(cases) if c["kind"] in KINDNUM]       # read_req: direct oracle only (its model is C09's)
+    jv = vlib.run_judge(ctx.rundir, "JHeaders", "judge", [judge_case(cases[i], resps[i]) for i in judged])
+    verdicts = [0] * len(cases)
+    for i, v in zip(judged, jv):
+        verdicts[i] = v
     mism = [i for i, v in enumerate(verdicts) if v < 0]
     for i in mism:
         why = oracle(cases[i], resps[i])
